@@ -8,6 +8,11 @@
      rimg frames <n> <fill byte> <hex file>         WebPDecoder::new + n calls of read_frame (buffer of output_buffer_size())
         -> NEWERR <variant> | <w> <h> <alpha> <anim> then per call ` | OK <duration> <pixels>` or ` | ERR <variant>` /
            ` | PANIC <kind>` (the trace stops after the first call that is not OK)
+     rimg ops <ops> <fill byte> <hex file>           WebPDecoder::new + the call sequence <ops> over F (read_frame), R (reset_animation),
+        I (read_image), S (the caller fills its buffer with <fill>) on one buffer of output_buffer_size() bytes (Model.ReadImageOps.run_ops)
+        -> NEWERR <variant> | <w> <h> <alpha> <anim> then per call ` | F OK <duration> <pixels>` / ` | F ERR <variant> <pixels>` /
+           ` | I OK <pixels>` / ` | I ERR <variant> <pixels|?>` / ` | R` / ` | S`, <pixels> = the caller's buffer after the call;
+           a PANIC / OUTOFFUEL item ends the trace
    A VP8 payload the specification rejects is reported as variant `Vp8Decode`.
    Only parsing and printing happen here; every value printed is computed by extracted Coq code. *)
 open Oracle_gen
@@ -75,6 +80,30 @@ let eval (ws : string list) : string option =
          | (Err e, _) :: _ -> Buffer.add_string bf (" | ERR " ^ err_name e)
          | (Panic p, _) :: _ -> Buffer.add_string bf (" | PANIC " ^ panic_name p)
          | (OutOfFuel, _) :: _ -> Buffer.add_string bf " | OUTOFFUEL" in
+       go trace;
+       Some (Buffer.contents bf))
+  | ["rimg"; "ops"; ops; fill; file] ->
+    let mops = List.map (fun c -> match c with
+        | 'F' -> MFrame | 'R' -> MReset | 'I' -> MImage | 'S' -> MFill (z_of_string fill)
+        | _ -> failwith "bad op") (List.init (String.length ops) (String.get ops)) in
+    (match rimg_ops (zbytes_of_hex file) mops (z_of_string fill) with
+     | Err e -> Some ("NEWERR " ^ err_name e)
+     | Panic p -> Some ("PANIC new " ^ panic_name p)
+     | OutOfFuel -> Some "OUTOFFUEL new"
+     | Ok ((((w, h), al), an), trace) ->
+       let bf = Buffer.create 65536 in
+       Buffer.add_string bf (Printf.sprintf "%s %s %s %s" (zs w) (zs h) (b al) (b an));
+       let res_item tag okf r px = match r with
+         | Ok x -> Buffer.add_string bf (Printf.sprintf " | %s OK %s%s" tag (okf x) px); true
+         | Err e -> Buffer.add_string bf (Printf.sprintf " | %s ERR %s %s" tag (err_name e) px); true
+         | Panic p -> Buffer.add_string bf (Printf.sprintf " | %s PANIC %s" tag (panic_name p)); false
+         | OutOfFuel -> Buffer.add_string bf (Printf.sprintf " | %s OUTOFFUEL" tag); false in
+       let rec go tr = match tr with
+         | [] -> ()
+         | (RoFrame r, px) :: tl -> if res_item "F" (fun d -> zs d ^ " ") r (pixels w h px) then go tl
+         | (RoImage (r, known), px) :: tl -> if res_item "I" (fun _ -> "") r (if known then pixels w h px else "?") then go tl
+         | (RoReset r, _) :: tl -> (match r with Ok _ -> Buffer.add_string bf " | R"; go tl | _ -> ignore (res_item "R" (fun _ -> "") r ""))
+         | (RoFill, _) :: tl -> Buffer.add_string bf " | S"; go tl in
        go trace;
        Some (Buffer.contents bf))
   | "rimg" :: _ -> Some "BADCASE"
